@@ -120,8 +120,265 @@ func init() {
 			"Definition walkdir_lookup_key : list string := " + coqStringList(wl) + ".\n" +
 			"Definition walkdir_store_key : list string := " + coqStringList(ws) + ".\n" +
 			"Definition walkdir_fields : list string := " + coqStringList(wf) + ".\n" +
-			"Definition globber_field_writers : list string := " + coqStringList(gw) + ".\n"
+			"Definition globber_field_writers : list string := " + coqStringList(gw) + ".\n" +
+			"(* the condition under which the WalkDirFunc of walkDir declares the directory of `path` a sub-package *)\n" +
+			"Inductive wcond := WIsBuildFile | WIsRegular | WIsSymlink | WIsDir | WAnd (a b : wcond) | WOr (a b : wcond) | WNot (a : wcond).\n" +
+			"Definition walk_subpkg_cond : wcond := " + walkSubpkgCond(f) + ".\n" +
+			globBuiltin()
 	}
+}
+
+// walkSubpkgCond translates the guard of the sub-package detection in the WalkDirFunc of Globber.walkDir.  Recognised:
+//     iofs.WalkDir(g.fs, rootPath, func(path string, d iofs.DirEntry, err error) error {
+//         typeMode := mode(d.Type())
+//         if <cond> {
+//             packageName := filepath.Dir(path)
+//             if packageName != rootPath { dir.subPackages = append(dir.subPackages, packageName); return filepath.SkipDir }
+//         }
+//         ...
+// <cond> over: isBuildFile(g.buildFileNames, path), typeMode.IsRegular()/IsSymlink()/IsDir(), d.IsDir(), &&, ||, !, ().
+func walkSubpkgCond(f *ast.File) string {
+	fd := findFunc(f, "Globber", "walkDir")
+	recv := fd.Recv.List[0].Names[0].Name
+	if fd.Type.Params == nil || len(fd.Type.Params.List) != 1 || len(fd.Type.Params.List[0].Names) != 1 {
+		failShape("walkDir: expected one parameter")
+	}
+	rootParam := fd.Type.Params.List[0].Names[0].Name
+	var lit *ast.FuncLit
+	ast.Inspect(fd.Body, func(n ast.Node) bool {
+		if call, ok := n.(*ast.CallExpr); ok {
+			if sel, ok := call.Fun.(*ast.SelectorExpr); ok && sel.Sel.Name == "WalkDir" && len(call.Args) == 3 {
+				if fl, ok := call.Args[2].(*ast.FuncLit); ok {
+					if lit != nil {
+						failShape("walkDir: more than one WalkDir call")
+					}
+					lit = fl
+				}
+			}
+		}
+		return true
+	})
+	if lit == nil || len(lit.Type.Params.List) != 3 || len(lit.Body.List) < 2 {
+		failShape("walkDir: WalkDir callback not found / unexpected signature")
+	}
+	pname := func(i int) string {
+		if len(lit.Type.Params.List[i].Names) != 1 {
+			failShape("walkDir: callback parameter list shape")
+		}
+		return lit.Type.Params.List[i].Names[0].Name
+	}
+	pathP, entP := pname(0), pname(1)
+	isIdent := func(e ast.Expr, name string) bool { id, ok := e.(*ast.Ident); return ok && id.Name == name }
+	// typeMode := mode(d.Type())
+	tm := ""
+	if as, ok := lit.Body.List[0].(*ast.AssignStmt); ok && as.Tok == token.DEFINE && len(as.Lhs) == 1 && len(as.Rhs) == 1 {
+		if call, ok := as.Rhs[0].(*ast.CallExpr); ok && isIdent(call.Fun, "mode") && len(call.Args) == 1 {
+			if c2, ok := call.Args[0].(*ast.CallExpr); ok && len(c2.Args) == 0 {
+				if sel, ok := c2.Fun.(*ast.SelectorExpr); ok && sel.Sel.Name == "Type" && isIdent(sel.X, entP) {
+					tm = as.Lhs[0].(*ast.Ident).Name
+				}
+			}
+		}
+	}
+	if tm == "" {
+		failShape("walkDir: callback does not start with `typeMode := mode(d.Type())`")
+	}
+	ifs, ok := lit.Body.List[1].(*ast.IfStmt)
+	if !ok || ifs.Init != nil || ifs.Else != nil {
+		failShape("walkDir: second callback statement is not the sub-package `if`")
+	}
+	var tr func(e ast.Expr) string
+	tr = func(e ast.Expr) string {
+		switch x := e.(type) {
+		case *ast.ParenExpr:
+			return tr(x.X)
+		case *ast.UnaryExpr:
+			if x.Op == token.NOT {
+				return "(WNot " + tr(x.X) + ")"
+			}
+		case *ast.BinaryExpr:
+			if x.Op == token.LAND {
+				return "(WAnd " + tr(x.X) + " " + tr(x.Y) + ")"
+			}
+			if x.Op == token.LOR {
+				return "(WOr " + tr(x.X) + " " + tr(x.Y) + ")"
+			}
+		case *ast.CallExpr:
+			if isIdent(x.Fun, "isBuildFile") && len(x.Args) == 2 && isIdent(x.Args[1], pathP) {
+				if sel, ok := x.Args[0].(*ast.SelectorExpr); ok && sel.Sel.Name == "buildFileNames" && isIdent(sel.X, recv) {
+					return "WIsBuildFile"
+				}
+			}
+			if sel, ok := x.Fun.(*ast.SelectorExpr); ok && len(x.Args) == 0 {
+				onMode := isIdent(sel.X, tm)
+				if c2, ok := sel.X.(*ast.CallExpr); ok && len(c2.Args) == 0 { // d.Type().IsRegular()
+					if s2, ok := c2.Fun.(*ast.SelectorExpr); ok && s2.Sel.Name == "Type" && isIdent(s2.X, entP) {
+						onMode = true
+					}
+				}
+				switch {
+				case onMode && sel.Sel.Name == "IsRegular":
+					return "WIsRegular"
+				case onMode && sel.Sel.Name == "IsSymlink":
+					return "WIsSymlink"
+				case (onMode || isIdent(sel.X, entP)) && sel.Sel.Name == "IsDir":
+					return "WIsDir"
+				}
+			}
+		}
+		failShape("walkDir: sub-package condition has a part that is not recognised")
+		return ""
+	}
+	cond := tr(ifs.Cond)
+	// the body
+	if len(ifs.Body.List) != 2 {
+		failShape("walkDir: sub-package block is not `packageName := filepath.Dir(path); if packageName != rootPath {...}`")
+	}
+	as, ok := ifs.Body.List[0].(*ast.AssignStmt)
+	if !ok || as.Tok != token.DEFINE || len(as.Lhs) != 1 || len(as.Rhs) != 1 {
+		failShape("walkDir: sub-package block does not start with `packageName := filepath.Dir(path)`")
+	}
+	pkgVar := as.Lhs[0].(*ast.Ident).Name
+	if call, ok := as.Rhs[0].(*ast.CallExpr); !ok || len(call.Args) != 1 || !isIdent(call.Args[0], pathP) {
+		failShape("walkDir: packageName is not filepath.Dir(path)")
+	} else if sel, ok := call.Fun.(*ast.SelectorExpr); !ok || sel.Sel.Name != "Dir" || !isIdent(sel.X, "filepath") {
+		failShape("walkDir: packageName is not filepath.Dir(path)")
+	}
+	in, ok := ifs.Body.List[1].(*ast.IfStmt)
+	if !ok || in.Init != nil || in.Else != nil || len(in.Body.List) != 2 {
+		failShape("walkDir: inner sub-package `if` shape")
+	}
+	if be, ok := in.Cond.(*ast.BinaryExpr); !ok || be.Op != token.NEQ || !isIdent(be.X, pkgVar) || !isIdent(be.Y, rootParam) {
+		failShape("walkDir: inner sub-package condition is not `packageName != rootPath`")
+	}
+	if ap, ok := in.Body.List[0].(*ast.AssignStmt); !ok || len(ap.Lhs) != 1 || len(ap.Rhs) != 1 {
+		failShape("walkDir: sub-package is not recorded by an append")
+	} else {
+		l, okl := ap.Lhs[0].(*ast.SelectorExpr)
+		call, okc := ap.Rhs[0].(*ast.CallExpr)
+		if !okl || !okc || l.Sel.Name != "subPackages" || !isIdent(call.Fun, "append") || len(call.Args) != 2 || !isIdent(call.Args[1], pkgVar) {
+			failShape("walkDir: sub-package is not recorded by `dir.subPackages = append(dir.subPackages, packageName)`")
+		}
+	}
+	if ret, ok := in.Body.List[1].(*ast.ReturnStmt); !ok || len(ret.Results) != 1 {
+		failShape("walkDir: sub-package block does not return")
+	} else if sel, ok := ret.Results[0].(*ast.SelectorExpr); !ok || sel.Sel.Name != "SkipDir" {
+		failShape("walkDir: sub-package block does not return filepath.SkipDir")
+	}
+	return cond
+}
+
+// globBuiltin translates, from func glob of src/parse/asp/builtins.go (the glob() builtin of the BUILD language): what
+// is appended to the exclude list before the Globber is called, the build-file-names argument of every fs.NewGlobber
+// call, the arguments of the Globber.Glob call, and every top-level write of `exclude` before that call.
+func globBuiltin() string {
+	_, f := parseFile("src/parse/asp/builtins.go")
+	fd := findFunc(f, "", "glob")
+	var tr func(e ast.Expr) string
+	dotted := func(e ast.Expr) (string, bool) {
+		parts := []string{}
+		for {
+			switch x := e.(type) {
+			case *ast.Ident:
+				parts = append([]string{x.Name}, parts...)
+				return strings.Join(parts, "."), true
+			case *ast.SelectorExpr:
+				parts = append([]string{x.Sel.Name}, parts...)
+				e = x.X
+				continue
+			}
+			return "", false
+		}
+	}
+	tr = func(e ast.Expr) string {
+		if d, ok := dotted(e); ok {
+			return "(BSel " + coqString(d) + ")"
+		}
+		if call, ok := e.(*ast.CallExpr); ok && len(call.Args) == 1 && !call.Ellipsis.IsValid() {
+			if d, ok := dotted(call.Fun); ok {
+				return "(BCall1 " + coqString(d) + " " + tr(call.Args[0]) + ")"
+			}
+		}
+		return "BOther"
+	}
+	isIdent := func(e ast.Expr, name string) bool { id, ok := e.(*ast.Ident); return ok && id.Name == name }
+	var appended, globberBfn, globArgs, writes []string
+	spread := "false"
+	nAppend, nGlob := 0, 0
+	globSeen := false
+	for _, st := range fd.Body.List {
+		// the Globber.Glob call
+		ast.Inspect(st, func(n ast.Node) bool {
+			call, ok := n.(*ast.CallExpr)
+			if !ok {
+				return true
+			}
+			if sel, ok := call.Fun.(*ast.SelectorExpr); ok {
+				if d, _ := dotted(sel.X); sel.Sel.Name == "Glob" && d == "s.globber" {
+					nGlob++
+					globSeen = true
+					for _, a := range call.Args {
+						globArgs = append(globArgs, tr(a))
+					}
+				}
+				if sel.Sel.Name == "NewGlobber" && len(call.Args) == 2 {
+					globberBfn = append(globberBfn, tr(call.Args[1]))
+				}
+			}
+			return true
+		})
+		if globSeen {
+			break
+		}
+		as, top := st.(*ast.AssignStmt)
+		nested := 0
+		ast.Inspect(st, func(n ast.Node) bool {
+			if a, ok := n.(*ast.AssignStmt); ok {
+				for _, l := range a.Lhs {
+					if isIdent(l, "exclude") {
+						nested++
+					}
+				}
+			}
+			return true
+		})
+		if nested == 0 {
+			continue
+		}
+		if !top || nested != 1 || len(as.Lhs) != 1 || len(as.Rhs) != 1 {
+			failShape("glob builtin: `exclude` is written inside a nested statement before the Glob call")
+		}
+		call, ok := as.Rhs[0].(*ast.CallExpr)
+		if !ok {
+			failShape("glob builtin: `exclude` is assigned something that is not a call")
+		}
+		if as.Tok == token.DEFINE {
+			d, _ := dotted(call.Fun)
+			writes = append(writes, "define:"+d)
+			continue
+		}
+		if !isIdent(call.Fun, "append") || len(call.Args) < 2 || !isIdent(call.Args[0], "exclude") {
+			failShape("glob builtin: `exclude` is re-assigned by something other than append(exclude, ...)")
+		}
+		nAppend++
+		writes = append(writes, "append")
+		if call.Ellipsis.IsValid() {
+			spread = "true"
+		}
+		for _, a := range call.Args[1:] {
+			appended = append(appended, tr(a))
+		}
+	}
+	if nAppend != 1 || nGlob != 1 || len(globberBfn) == 0 {
+		failShape("glob builtin: expected one append to `exclude`, one s.globber.Glob call and fs.NewGlobber calls (found %d, %d, %d)", nAppend, nGlob, len(globberBfn))
+	}
+	return "(* the glob() builtin of the BUILD language, src/parse/asp/builtins.go *)\n" +
+		"Inductive bexpr := BSel (path : string) | BCall1 (f : string) (arg : bexpr) | BOther.\n" +
+		"Definition builtin_exclude_appended : list bexpr := [" + strings.Join(appended, "; ") + "].\n" +
+		"Definition builtin_exclude_spread : bool := " + spread + ".\n" +
+		"Definition builtin_exclude_writes : list string := " + coqStringList(writes) + ".\n" +
+		"Definition builtin_globber_bfn : list bexpr := [" + strings.Join(globberBfn, "; ") + "].\n" +
+		"Definition builtin_glob_args : list bexpr := [" + strings.Join(globArgs, "; ") + "].\n"
 }
 
 func globberCacheProtocol(f *ast.File) (params, lookupKey, storeKey, fields, writers []string) {
